@@ -115,9 +115,13 @@ enum Kind {
     /// The victim's whole node becomes unreachable without a word: its connections go
     /// silent and new connection attempts hang; it heals when faults stop.
     Partition,
+    /// The next response on the victim arrives with its opcode byte replaced by a value
+    /// that is no response opcode (version, stream and length intact): the request it
+    /// answers has no answer any more; the node itself notices nothing.
+    BadOpcode,
 }
 
-const KINDS: [Kind; 7] = [
+const KINDS: [Kind; 8] = [
     Kind::Fin,
     Kind::Rst,
     Kind::Garbage,
@@ -125,6 +129,7 @@ const KINDS: [Kind; 7] = [
     Kind::Unsolicited,
     Kind::Stall,
     Kind::Partition,
+    Kind::BadOpcode,
 ];
 
 #[derive(Clone, Debug)]
@@ -305,6 +310,11 @@ fn inject(w: &mut World, conn: ConnId, kind: Kind, offset: usize, doomed: &mut V
             let f = unsolicited_frame(w, conn);
             w.fault(Fault::Garbage);
             w.srv_send_now(conn, f, None);
+            false
+        }
+        Kind::BadOpcode => {
+            w.conns[conn].corrupt_next_opcode = Some([0x7f, 0x04, 0x11, 0x07][tape::choose("c10:bad_opcode", 4) as usize]);
+            w.probe("response_opcode_corruption_armed");
             false
         }
         Kind::Partition => {
@@ -491,7 +501,7 @@ async fn main(plan: Plan) -> Outcome {
                         None => (
                             tape::choose("c10:offset", 120) as usize,
                             if plan.ka_off {
-                                [Kind::Fin, Kind::Rst, Kind::BadVersion, Kind::Unsolicited][tape::choose("c10:kind_loud", 4) as usize]
+                                [Kind::Fin, Kind::Rst, Kind::BadVersion, Kind::Unsolicited, Kind::BadOpcode][tape::choose("c10:kind_loud", 5) as usize]
                             } else {
                                 KINDS[tape::choose("c10:kind", KINDS.len() as u64) as usize]
                             },
@@ -622,6 +632,7 @@ async fn main(plan: Plan) -> Outcome {
         let mut w = world::world();
         for c in w.conns.iter_mut() {
             c.cut = None;
+            c.corrupt_next_opcode = None;
         }
         {
             let mut s = w.script.take().unwrap();
